@@ -46,7 +46,9 @@ def run_tlc(module, cfg=None, env=None, workers=1, extra=(), timeout=3600, cwd=N
     """Run TLC on spec/<module>.tla. Returns dict(stdout, wall_s, states, distinct, tuples)."""
     tag = tag or module
     meta = workdir("meta_" + tag)
-    cmd = ["java", "-XX:+UseParallelGC", "-Xss512m", "-Xmx" + heap, "-cp", JAR_CP, "tlc2.TLC",
+    # (java.io.tmpdir: TLC leaves an empty tlc-* directory per run in the temp directory; keep them inside the scratch
+    # directory that is removed after the run, not in /tmp)
+    cmd = ["java", "-XX:+UseParallelGC", "-Xss512m", "-Xmx" + heap, "-Djava.io.tmpdir=" + meta, "-cp", JAR_CP, "tlc2.TLC",
            "-workers", str(workers), "-metadir", meta, "-noGenerateSpecTE"]
     if cfg:
         cmd += ["-config", cfg]
